@@ -113,7 +113,13 @@ pub fn detect(context: DetectContext<HB>) -> libcnb::Result<DetectResult, HErr> 
         Err(libcnb::Error::BuildpackError(HErr("scripted detect error".into())))
     } else {
         let ops = c07::plan_ops_from_json(&d["pass_plan"]);
-        let (plan, _) = c07::build_plan(&ops).map_err(|f| libcnb::Error::BuildpackError(HErr(f.msg)))?;
+        let (mut plan, _) = c07::build_plan(&ops).map_err(|f| libcnb::Error::BuildpackError(HErr(f.msg)))?;
+        if s["use_app_dir"] == true {
+            // an output derived from the context, as ordinary buildpacks do (C20: ambient state must not leak into it)
+            let mut r = libcnb::data::build_plan::Require::new("verif-app-dir");
+            r.metadata.insert("app_dir".into(), toml::Value::String(context.app_dir.to_string_lossy().into_owned()));
+            plan.requires.push(r);
+        }
         DetectResultBuilder::pass().build_plan(plan).build()
     }
 }
@@ -158,8 +164,12 @@ pub fn build(context: BuildContext<HB>) -> libcnb::Result<BuildResult, HErr> {
         let (launch, _) = c07::build_launch(&c07::launch_ops_from_json(&b["launch"]));
         rb = rb.launch(launch);
     }
-    if !b["store"].is_null() {
-        rb = rb.store(Store { metadata: TV::from_json(&b["store"]).to_toml_table() });
+    if !b["store"].is_null() || s["use_app_dir"] == true {
+        let mut metadata = if b["store"].is_null() { toml::Table::new() } else { TV::from_json(&b["store"]).to_toml_table() };
+        if s["use_app_dir"] == true {
+            metadata.insert("verif-app-dir".into(), toml::Value::String(context.app_dir.to_string_lossy().into_owned()));
+        }
+        rb = rb.store(Store { metadata });
     }
     for (key, build_side) in [("build_sboms", true), ("launch_sboms", false)] {
         if let Some(a) = b[key].as_array() {
